@@ -1,6 +1,6 @@
 """C15 -- derived quadrature schemes preserve measure and polynomial
 exactness (DESIGN.md E5)."""
-from .. import quadalg
+from .. import quadalg, effects
 
 LEVEL = 'proof'
 META = {
@@ -33,6 +33,7 @@ def run(prog, report, tier):
     quadalg.check_affine(prog, report)
     quadalg.check_mirrors(prog, report)
     quadalg.check_layout(prog, report)
+    effects.check_memo(prog, report, files={'src/quadrature.py'})
     quadalg.check_duffy(prog, report, 'DuffyScheme2D', 'scheme2d', 2,
                         [({'symmetric': False}, False),
                          ({'symmetric': True}, True)], deg2,
